@@ -415,8 +415,13 @@ func (r *RegionScatterer) selectStore(group string, peer *metapb.Peer, sourceSto
 // the existed peers store depended on the leader counts in the group level.
 func (r *RegionScatterer) selectAvailableLeaderStores(group string, peers map[uint64]*metapb.Peer, context engineContext) uint64 {
 	leaderCandidateStores := make([]uint64, 0)
-	for storeID := range peers {
+	// The leader is forced onto the selected store: it must be a store that accepts leaders.
+	leaderFilter := &filter.StoreStateFilter{ActionScope: r.name, TransferLeader: true}
+	for storeID, peer := range peers {
 		store := r.cluster.GetStore(storeID)
+		if store == nil || core.IsLearner(peer) || !leaderFilter.Target(r.cluster.GetOpts(), store) {
+			continue
+		}
 		engine := store.GetLabelValue(filter.EngineKey)
 		if len(engine) < 1 {
 			leaderCandidateStores = append(leaderCandidateStores, storeID)
